@@ -44,6 +44,7 @@ type world struct {
 	idx   *s2.ShapeIndex
 	edges int
 	kinds string
+	off   int32 // id of the first shape: the number of shapes that were added before it and removed again
 }
 
 func buildWorld(r *rand.Rand, maxE int, small bool) *world {
@@ -55,6 +56,25 @@ func buildWorld(r *rand.Rand, maxE int, small bool) *world {
 	if small {
 		n = 1 + r.Intn(3)
 	}
+	// one world in four starts with 1..3 shapes that are removed again before any query: the ids of the
+	// shapes that stay then start above the number of shapes in the index
+	var decoys []s2.Shape
+	if r.Intn(4) == 0 {
+		for k := 1 + r.Intn(3); k > 0; k-- {
+			d := gen.MakeObj(r, gen.Near(r, ctr, scale*2*r.Float64()), scale*(0.2+r.Float64()), 16)
+			decoys = append(decoys, d.Shape)
+			w.idx.Add(d.Shape)
+			w.off++
+		}
+		if r.Intn(2) == 0 {
+			w.idx.Build()
+		}
+	}
+	defer func() {
+		for _, d := range decoys {
+			w.idx.Remove(d)
+		}
+	}()
 	for i := 0; i < n && w.edges < maxE; i++ {
 		at := gen.Near(r, ctr, scale*2*r.Float64())
 		if global {
@@ -362,7 +382,7 @@ func runQuery(c *mon.Case, r *rand.Rand, w *world, nfaces int, t *target, fo *fi
 	var all []res
 	for si, o := range w.objs {
 		for e := 0; e < o.Shape.NumEdges(); e++ {
-			all = append(all, res{t.edgeDist(o.Shape.Edge(e), furthest, true), int32(si), int32(e)})
+			all = append(all, res{t.edgeDist(o.Shape.Edge(e), furthest, true), int32(si) + w.off, int32(e)})
 		}
 	}
 	zero := s1.ChordAngle(0)
@@ -381,7 +401,7 @@ func runQuery(c *mon.Case, r *rand.Rand, w *world, nfaces int, t *target, fo *fi
 					q = s2.Point{Vector: rp.Mul(-1)}
 				}
 				if o.ContainsInterior(q) {
-					interiorShapes = append(interiorShapes, int32(si))
+					interiorShapes = append(interiorShapes, int32(si)+w.off)
 					break
 				}
 			}
